@@ -539,7 +539,7 @@ fn random_op(rng: &mut Rng, p: &mut PDB) -> (Sx, Sx) {
             // atom setters, valid and invalid values
             let texts = ["CA", " cb ", "", " ", "N\u{1}", "o1", "X\u{7f}"];
             let floats = [0.5, -0.5, 0.0, -0.0, 12.125, f64::NAN, f64::INFINITY, f64::NEG_INFINITY, 1e300];
-            let field = *rng.pick(&["hetero", "serial", "id", "name", "x", "y", "z", "occ", "b", "charge", "element"]);
+            let field = *rng.pick(&["hetero", "serial", "id", "name", "x", "y", "z", "occ", "b", "charge", "element", "pos", "pos", "atf"]);
             let (v, ret): (Sx, Sx) = match field {
                 "hetero" => {
                     let v = rng.chance(1, 2);
@@ -582,6 +582,22 @@ fn random_op(rng: &mut Rng, p: &mut PDB) -> (Sx, Sx) {
                 "b" => {
                     let v = *rng.pick(&floats);
                     (f(v), on!(get_atom, 5, |a| b(a.set_b_factor(v).is_ok())))
+                }
+                "pos" => {
+                    let v = (*rng.pick(&floats), *rng.pick(&floats), *rng.pick(&floats));
+                    (l(vec![f(v.0), f(v.1), f(v.2)]), on!(get_atom, 5, |a| b(a.set_pos(v).is_ok())))
+                }
+                "atf" => {
+                    let mut t = [[0.0f64; 3]; 3];
+                    for r in t.iter_mut() {
+                        for v in r.iter_mut() {
+                            *v = rng.range(-40, 40) as f64 / 8.0;
+                        }
+                    }
+                    (l(t.iter().flat_map(|r| r.iter().map(|v| f(*v))).collect()), on!(get_atom, 5, |a| {
+                        a.set_anisotropic_temperature_factors(t);
+                        b(true)
+                    }))
                 }
                 "charge" => {
                     let v = rng.range(-3, 3) as isize;
